@@ -6,7 +6,8 @@ From Coq Require Import ZArith NArith Bool List Reals.
 From Flocq Require Import Core Binary Bits.
 From E57 Require Import Base.Prelude Base.Floats Model.Normalize Model.Device Model.PagedReader
   Spec.PageSpec Spec.PageReadSpec Model.FileBin Model.ReaderOpen Model.Tools
-  Proofs.ToolsCoord Proofs.ToolsColor Proofs.ToolsLines Proofs.ToolsXyz Proofs.ToolsCrc.
+  Model.Record Model.Meta Model.Prog Model.PcWriter Model.QueueReader Model.SimpleIter Spec.SimpleSpec
+  Proofs.ToolsCoord Proofs.ToolsColor Proofs.ToolsLines Proofs.ToolsXyz Proofs.ToolsCrc Proofs.ToolsView.
 
 (** Colours: for each of the 256 values, stored integer -> normalised f32
     ((v - 0) / 255 through the colour limits the writer derives) ->
@@ -68,6 +69,39 @@ Theorem C20_xyz_roundtrip :
   xyz_roundtrip parse_f32 fmt_f64_ryu input = Ok (flat_map (canonical_line fmt_f64_ryu) pts).
 Proof. exact xyz_roundtrip_file. Qed.
 
+(** The library between the two tools: [xyz_view] is the documented view of the
+    simple iterator (Spec/SimpleSpec.v, equal to the iterator by C05_simple_is_view)
+    for the descriptor e57-from-xyz writes ([xyz_descr]: prototype X/Y/Z f32 +
+    R/G/B Integer 0..255, no pose, colour limits 0/255, no intensity limits) and
+    the options e57-to-xyz sets ([xyz_opts]), for every raw point of that prototype. *)
+Theorem C20_xyz_view_is_view :
+  forall (fcos fsin fasin : binary64 -> binary64) (fatan2 : binary64 -> binary64 -> binary64)
+         (pc : pointcloud), xyz_descr pc ->
+  forall p : point6,
+  view fcos fsin fasin fatan2 pc xyz_opts (raw_of_point6 p) = res_map point_of_spoint (xyz_view p).
+Proof. exact xyz_view_is_view. Qed.
+
+(** End to end: XYZ text -> from_xyz -> add_point accepts every point ->
+    [raw_roundtrip: the raw iterator over the written file returns the points
+    added, in order - Props/C01.v C01_file_roundtrip] -> the simple iteration
+    of e57-to-xyz succeeds (C05_simple_is_view) -> what is printed is one
+    canonical line per six-column input line, in order, = [xyz_roundtrip]. *)
+Theorem C20_xyz_end_to_end :
+  forall (fcos fsin fasin : binary64 -> binary64) (fatan2 : binary64 -> binary64 -> binary64)
+         (pc : pointcloud), xyz_descr pc ->
+  forall (parse_f32 : list N -> option N) (fmt_f64_ryu : N -> list N)
+         (input : list N) (pts : list point6) (fuel : nat) (log_size : N) (s s' : pr),
+  from_xyz parse_f32 (xyz_lines input) = Ok pts ->
+  Forall finite_pt pts ->
+  forall raw_roundtrip :
+    rrun (raw_read_all fuel log_size pc) s = (s', Ok (map raw_of_point6 pts)),
+  Forall (fun p => values_ok proto6 (raw_of_point6 p) = true) pts /\
+  exists spts,
+    rrun (simple_read_all fcos fsin fasin fatan2 fuel log_size pc xyz_opts) s = (s', Ok spts) /\
+    to_xyz fmt_f64_ryu (map spoint_of_point spts) = flat_map (canonical_line fmt_f64_ryu) pts /\
+    xyz_roundtrip parse_f32 fmt_f64_ryu input = Ok (to_xyz fmt_f64_ryu (map spoint_of_point spts)).
+Proof. exact xyz_end_to_end. Qed.
+
 (** Known edge (the iterator, not the tools): the bit pattern of -0 is not
     preserved - it is delivered as +0, numerically equal. *)
 Theorem C20_coordinate_bits_refuted :
@@ -79,9 +113,9 @@ Proof. exact coord_out_neg_zero. Qed.
     coordinates of the same point into NaN (0 * inf in the identity rotation). *)
 Theorem C20_nonfinite_neighbour_refuted :
   match transform_cart pose_default
-          (CValid (f64_of_f32 (f32_of_bits 0x3f800000)) (f64_of_f32 (f32_of_bits 0x7f800000))
+          (Tools.CValid (f64_of_f32 (f32_of_bits 0x3f800000)) (f64_of_f32 (f32_of_bits 0x7f800000))
                   (f64_of_f32 (f32_of_bits 0x40000000))) with
-  | CValid x y z => (bits_of_f64c x, bits_of_f64c y, bits_of_f64c z)
+  | Tools.CValid x y z => (bits_of_f64c x, bits_of_f64c y, bits_of_f64c z)
   | _ => (0, 0, 0)
   end = (nan64_bits, 0x7ff0000000000000, nan64_bits).
 Proof. exact coord_nonfinite_neighbour. Qed.
@@ -173,6 +207,8 @@ Print Assumptions C20_identity_pose.
 Print Assumptions C20_coordinate_value.
 Print Assumptions C20_coordinate_roundtrip.
 Print Assumptions C20_xyz_roundtrip.
+Print Assumptions C20_xyz_view_is_view.
+Print Assumptions C20_xyz_end_to_end.
 Print Assumptions C20_coordinate_bits_refuted.
 Print Assumptions C20_nonfinite_neighbour_refuted.
 Print Assumptions C20_line_filter.
